@@ -1,6 +1,7 @@
 CONSTANTS
   MaxOps = 6
   Variant = "basic"
+  Record = FALSE
   RuleBug = "noouts"
 SPECIFICATION Spec
 INVARIANTS TypeOK C02 C03 C09 C08
